@@ -401,7 +401,7 @@ UNITS = [{
         },
         'impl Heap::capacity': {'props': H, 'ensures': [(H, 'r == self.len()')]},
         # declared although the verified functions do not call it (a change that did would be decided, not refused)
-        'impl Heap::chunk_size': {'props': H, 'ensures': [(H, 'r == self.chunk()')]},
+        'impl Heap::chunk_size': {'props': ['C06'], 'ensures': [(['C06'], 'r == self.chunk()')]},
         'impl Heap::free_size': {'props': H, 'ensures': [(H, 'r == self.free_cells().len()')]},
         'impl Heap::sweep': {
             'props': HS + ['C06'],
